@@ -21,7 +21,9 @@ CHECKS = {
              'states, depth<=4): any disagreement is a failing input because the model is proved exact.',
         note=TB + 'The memo table keyed by printed formula is modelled separately (CTL.checkM) and proved transparent for '
              'formulas over identifier atoms (ctl_exact_memo, via printCTL_injective); a kernel-checked example shows the '
-             'stale-entry answer for an atom named "not p", reproduced on the real code.'),
+             'stale-entry answer for an atom named "not p", reproduced on the real code = known finding KF-C01-names '
+             '(atoms whose name reads like a formula; the adversarial stream checks that the code\'s wrong answers are '
+             'exactly those the memo model predicts). A sample of every run is repeated under python -O.'),
     'C02': dict(
         cat='proof', ref='5/C02',
         technique='Lean 4 theorems ltl_exact and ltl_excluded_iff_lasso (tableau truth lemma, soundness with periodic '
@@ -37,7 +39,8 @@ CHECKS = {
              'points produce (restrict_noNN); the built atoms, closure and tableau of the model are compared with the '
              'implementation\'s internal objects on every run (validate_ltlatoms.py). A latent wrong answer of '
              '_checkE_path_formula on double negations, unreachable through modelcheck, is kernel-checked '
-             '(double_negation_counterexample) and documented.'),
+             '(double_negation_counterexample) and documented. Known finding KF-C02-names: ==/hash by printed text '
+             'inside the closure make an atom named like a formula collide with it (adversarial stream).'),
     'C03': dict(
         cat='proof', ref='5/C03',
         technique='Lean 4 theorem ctls_exact (replacement of quantified subformulas by fresh atoms on top of the CTL and '
@@ -52,8 +55,9 @@ CHECKS = {
              'as inside the hypotheses of ctls_exact), plus a stream of operand-free/one-operand and/or where the '
              'model must still follow the code.',
         note=TB + 'The arity hypothesis is necessary: kernel-checked counterexample And(A X Or(), A X And()) '
-             '(C03Full.lean), reproduced on the real code = known finding KF-C03-a. Names that are not identifier-style '
-             '(adversarial labels) are covered by ctls_exact_partial + C19\'s correspondence.'),
+             '(C03Full.lean), reproduced on the real code = known finding KF-C03-a. Names that are not identifier-style: '
+             'ctls_exact_partial + C19\'s correspondence (namesOK evaluated per case); an atom spelled like a generated '
+             'name or like a printed formula is answered wrongly = known finding KF-C03-names (adversarial stream).'),
     'C04': dict(
         cat='proof', ref='5/C04',
         technique='Lean 4 corollaries of the exactness theorems and of semantic laws (expansion laws, dualities, '
